@@ -627,10 +627,10 @@ Section Deps.
   (* fields that the force bookkeeping never touches *)
   Definition same_deps (v v' : var) : Prop :=
     v_active v' = v_active v /\ v_rc v' = v_rc v /\ v_awake v' = v_awake v /\
-    v_apply v' = v_apply v /\ v_arc v' = v_arc v.
+    v_apply v' = v_apply v /\ v_arc v' = v_arc v /\ v_tsf v' = v_tsf v.
 
   Lemma VI_same_deps r a v v' : same_deps v v' -> VI r a v -> VI r a v'.
-  Proof. intros (E1 & E2 & E3 & E4 & E5). unfold VI. rewrite E1, E2, E3, E4, E5. tauto. Qed.
+  Proof. intros (E1 & E2 & E3 & E4 & E5 & _). unfold VI. rewrite E1, E2, E3, E4, E5. tauto. Qed.
 
   Lemma same_deps_vcalc v cs : same_deps v (set_vcalc O v cs).
   Proof. destruct v; unfold same_deps; cbn; tauto. Qed.
@@ -645,6 +645,62 @@ Section Deps.
     pose proof (VI_wake_var it r a v Hr H) as H1.
     destruct (v_active (fst (wake_var fixed it v))); [|exact H1].
     eapply VI_same_deps; [apply same_deps_vcalc | exact H1].
+  Qed.
+
+  (* the variable's own schedule: after calc_colvars a variable with factor n > 1 holds its "awake" reference
+     exactly at the multiples of n, and is active exactly when its reference count is positive *)
+  Lemma enable_awake_facts r a v : 0 <= r -> VI r a v ->
+    let w := var_enable_awake v in
+    v_awake w = true /\ v_active w = true /\ 0 < v_rc w /\ v_tsf w = v_tsf v.
+  Proof.
+    destruct v as [tsf act rc aw ap arc x cs fb fba f].
+    unfold VI, var_enable_awake, var_ref_active, set_vawake, set_vact. cbn.
+    intros Hr (H1 & H2 & H3 & H4).
+    destruct aw; cbn in *.
+    - assert (X : 0 < rc) by lia. rewrite (H3 X). repeat split; auto.
+    - destruct act; cbn; repeat split; auto; lia.
+  Qed.
+
+  Lemma disable_awake_facts r a v : 0 <= r -> VI r a v -> (v_awake v = true \/ v_active v = false) ->
+    let w := fst (var_disable_awake v) in
+    v_awake w = false /\ v_active w = (0 <? v_rc w) /\ v_tsf w = v_tsf v.
+  Proof.
+    destruct v as [tsf act rc aw ap arc x cs fb fba f].
+    unfold VI, var_disable_awake, var_decr_active, set_vawake, set_vact. cbn.
+    intros Hr (H1 & H2 & H3 & H4) Hc.
+    destruct aw; cbn in *.
+    - assert (X : 0 < rc) by lia. pose proof (H3 X) as Ha. subst act.
+      destruct (Z.leb_spec rc 0) as [L|L]; [lia|].
+      destruct (Z.eqb_spec (rc - 1) 0) as [E|E]; cbn; repeat split; auto.
+      symmetry. apply Z.ltb_lt. lia.
+    - destruct Hc as [Hc|Hc]; [discriminate|]. subst act. repeat split; auto.
+      assert (Hn : ~ 0 < rc) by (intro X; specialize (H3 X); discriminate).
+      symmetry. apply Z.ltb_ge. lia.
+  Qed.
+
+  Lemma calc_one_sched it r a v cs :
+    fixed = true -> 0 <= r -> VI r a v -> (1 <? v_tsf v) = true ->
+    let v' := calc_one it v cs in
+    v_tsf v' = v_tsf v /\ v_awake v' = on_schedule it (v_tsf v) /\ v_active v' = (0 <? v_rc v').
+  Proof.
+    intros Hf Hr H Ht. cbn zeta.
+    assert (G : let w := fst (wake_var fixed it v) in
+                v_tsf w = v_tsf v /\ v_awake w = on_schedule it (v_tsf v) /\ v_active w = (0 <? v_rc w)).
+    { cbn zeta. unfold wake_var. rewrite Ht, Hf. destruct (on_schedule it (v_tsf v)); cbn [fst andb].
+      - destruct (enable_awake_facts r a v Hr H) as (A1 & A2 & A3 & A4).
+        split; [exact A4|]. split; [exact A1|]. rewrite A2. symmetry. apply Z.ltb_lt. exact A3.
+      - destruct (v_active v && negb (v_awake v)) eqn:Ec.
+        + destruct (enable_awake_facts r a v Hr H) as (A1 & A2 & A3 & A4).
+          destruct (disable_awake_facts r a (var_enable_awake v) Hr (VI_enable_awake r a v Hr H) (or_introl A1)) as (D1 & D2 & D3).
+          split; [congruence|]. split; assumption.
+        + destruct (disable_awake_facts r a v Hr H) as (D1 & D2 & D3).
+          { apply andb_false_iff in Ec. destruct Ec as [Ec|Ec]; [right; exact Ec | left; apply negb_false_iff; exact Ec]. }
+          split; [exact D3|]. split; assumption. }
+    cbn zeta in G. destruct G as (G1 & G2 & G3). unfold calc_one. cbn zeta.
+    destruct (v_active (fst (wake_var fixed it v))) eqn:Ea.
+    - destruct (fst (wake_var fixed it v)) as [tsf act rc aw ap arc x cs0 fb fba f].
+      unfold set_vcalc. cbn [v_tsf v_awake v_active v_rc] in *. repeat split; congruence.
+    - rewrite Ea. repeat split; congruence.
   Qed.
 
   Lemma VInv_calc_vars it bs vs xs : VInv bs vs -> VInv bs (fst (calc_vars O fixed it vs xs)).
@@ -1095,6 +1151,60 @@ Section Real.
       exists v2. split; [exact Hv2|]. unfold VF. cbn [map rsum]. eapply FBrel_trans; eassumption.
   Qed.
 
+  (* the same, separately for fb (biases acting on the reported / extended coordinate) and fb_actual (biases with
+     bypassExtendedLagrangian, acting on the actual coordinate): both carry the bias's own time-step factor *)
+  Definition bforce_n (b : bias) (i : nat) : R := if b_bypass b then 0 else bforce b i.
+  Definition bforce_a (b : bias) (i : nat) : R := if b_bypass b then bforce b i else 0.
+  Definition VFn (bs : list bias) (i : nat) : R := rsum (map (fun b => bforce_n b i) bs).
+  Definition VFa (bs : list bias) (i : nat) : R := rsum (map (fun b => bforce_a b i) bs).
+
+  Lemma VF_split (bs : list bias) i : VF bs i = VFn bs i + VFa bs i.
+  Proof.
+    unfold VF, VFn, VFa. rewrite <- rsum_map_add. apply rsum_map_ext. intros b _.
+    unfold bforce_n, bforce_a. destruct (b_bypass b); lra.
+  Qed.
+
+  Lemma add_forces_fb byp t ids : forall fs vs i v,
+    nth_error vs i = Some v ->
+    exists v', nth_error (fst (add_forces Rops byp t ids fs vs)) i = Some v' /\
+               v_fb v' = v_fb v + (if byp then 0 else t * contrib ids fs i).
+  Proof.
+    induction ids as [|j r IH]; intros fs vs i v Hi.
+    - cbn [add_forces fst contrib]. exists v. split; [exact Hi|]. destruct byp; lra.
+    - destruct fs as [|f fs'].
+      + cbn [add_forces fst contrib]. exists v. split; [exact Hi|]. destruct byp; lra.
+      + cbn [add_forces contrib].
+        set (u := fun v : var => if byp then set_vfb v (v_fb v) (nadd Rops (v_fba v) (nmul Rops t f))
+                                else set_vfb v (nadd Rops (v_fb v) (nmul Rops t f)) (v_fba v)).
+        specialize (IH fs' (upd_nth vs j u) i).
+        destruct (add_forces Rops byp t r fs' (upd_nth vs j u)) as [vs2 e2]. cbn [fst] in *.
+        assert (Hu : exists v1, nth_error (upd_nth vs j u) i = Some v1 /\
+                                v_fb v1 = v_fb v + (if byp then 0 else if Nat.eqb j i then t * f else 0)).
+        { rewrite upd_nth_nth, Hi. rewrite (Nat.eqb_sym j i). destruct (Nat.eqb i j).
+          - cbn [option_map]. eexists; split; [reflexivity|]. unfold u. destruct byp; destruct v; cbn; rops; lra.
+          - exists v. split; [reflexivity|]. destruct byp; lra. }
+        destruct Hu as (v1 & Hv1 & R1). destruct (IH v1 Hv1) as (v' & Hv' & R2).
+        exists v'. split; [exact Hv'|]. rewrite R2, R1. destruct byp; [lra|]. destruct (Nat.eqb j i); lra.
+  Qed.
+
+  Lemma communicate_biases_fb bs : forall vs i v,
+    nth_error vs i = Some v ->
+    exists v', nth_error (fst (communicate_biases Rops bs vs)) i = Some v' /\ v_fb v' = v_fb v + VFn bs i.
+  Proof.
+    induction bs as [|b r IH]; intros vs i v Hi.
+    - cbn [communicate_biases fst]. exists v. split; [exact Hi|]. unfold VFn. cbn. lra.
+    - cbn [communicate_biases].
+      assert (H1 : exists v1, nth_error (fst (communicate_bias Rops b vs)) i = Some v1 /\ v_fb v1 = v_fb v + bforce_n b i).
+      { unfold communicate_bias, bforce_n, bforce. destruct (b_active b && b_apply b).
+        - destruct (add_forces_fb (b_bypass b) (nofZ Rops (b_tsf b)) (b_vars b) (b_forces b) vs i v Hi) as (v1 & A & B).
+          exists v1. split; [exact A|]. rewrite B. destruct (b_bypass b); rops; lra.
+        - cbn [fst]. exists v. split; [exact Hi|]. destruct (b_bypass b); lra. }
+      destruct (communicate_bias Rops b vs) as [vs1 e1]. cbn [fst] in *.
+      destruct H1 as (v1 & Hv1 & R1). destruct (IH vs1 i v1 Hv1) as (v2 & Hv2 & R2).
+      destruct (communicate_biases Rops r vs1) as [vs2 e2]. cbn [fst] in *.
+      exists v2. split; [exact Hv2|]. unfold VFn in *. cbn [map rsum]. lra.
+  Qed.
+
   (* no reference from an active applying bias: no force *)
   Lemma bforce_zero (b : bias) i : c_app b i = 0%Z -> bforce b i = 0.
   Proof.
@@ -1190,10 +1300,10 @@ Section Real.
     FBrel D (set_vfb v2 0 0) v4 ->
     vterm k (update_force Rops v4) = D * gsum cs k /\ same_deps v2 (update_force Rops v4).
   Proof.
-    intros (V1 & V2 & V3 & V4) Hr Ha Har HD Hcs ((S1 & S2 & S3 & S4 & S5) & X & C & F).
+    intros (V1 & V2 & V3 & V4) Hr Ha Har HD Hcs ((S1 & S2 & S3 & S4 & S5 & S6) & X & C & F).
     destruct v2 as [tsf2 act2 rc2 aw2 ap2 arc2 x2 cs2 fb2 fba2 f2].
     destruct v4 as [tsf4 act4 rc4 aw4 ap4 arc4 x4 cs4 fb4 fba4 f4].
-    cbn in *. subst act4 rc4 aw4 ap4 arc4 x4 cs4.
+    cbn in *. subst act4 rc4 aw4 ap4 arc4 tsf4 x4 cs4.
     unfold vterm, update_force, var_applies, same_deps. cbn.
     destruct act2; cbn.
     - split; [|tauto]. destruct ap2; cbn.
@@ -1208,12 +1318,18 @@ Section Real.
   Qed.
 
   (* ---- one calc(): closed form ------------------------------------------------------------------------ *)
-  Lemma calc_closed it vs (bs : list bias) xs :
+  Definition var_sched (it : Z) (v : var) : Prop :=
+    fixed = true -> (1 <? v_tsf v)%Z = true ->
+    v_awake v = on_schedule it (v_tsf v) /\ v_active v = (0 <? v_rc v)%Z.
+
+  Lemma calc_closed_full it vs (bs : list bias) xs :
     VInv bs vs ->
     let r := calc Rops fixed efix it vs bs xs in
     let bs2 := map (bias_step it (length vs) xs) bs in
     snd (fst (fst r)) = bs2 /\ VInv bs2 (fst (fst (fst r))) /\ length (fst (fst (fst r))) = length vs /\
-    snd r = EN bs2 /\ forall k, coord_force Rops (fst (fst (fst r))) k = CF bs2 xs (length vs) k.
+    snd r = EN bs2 /\ (forall k, coord_force Rops (fst (fst (fst r))) k = CF bs2 xs (length vs) k) /\
+    Forall (var_sched it) (fst (fst (fst r))) /\
+    (forall i v, nth_error (fst (fst (fst r))) i = Some v -> v_fb v = VFn bs2 i /\ v_fba v = VFa bs2 i).
   Proof.
     intros H. cbn zeta. unfold calc.
     destruct (wake_biases_spec fixed it bs [] vs H) as (W1 & W2 & W3).
@@ -1233,13 +1349,15 @@ Section Real.
     assert (B2 : bs2 = map (bias_step it (length vs) xs) bs).
     { unfold bs2, bs1, bias_step. rewrite map_map. reflexivity. }
     destruct (communicate_biases_rel bs2 (reset_fb Rops vs2)) as [L4 H4].
+    pose proof (communicate_biases_fb bs2 (reset_fb Rops vs2)) as H4f.
     destruct (communicate_biases Rops bs2 (reset_fb Rops vs2)) as [vs4 e3]. cbn [fst snd] in *.
     rewrite <- B2.
     assert (L3 : length (reset_fb Rops vs2) = length vs2) by (unfold reset_fb; apply map_length).
     (* per-variable description of the final list *)
     assert (P : forall i v5, nth_error (map (update_force Rops) vs4) i = Some v5 ->
               exists v2, nth_error vs2 i = Some v2 /\ same_deps v2 v5 /\
-                         forall k, vterm k v5 = VF bs2 i * gsum (nth i xs []) k).
+                         (forall k, vterm k v5 = VF bs2 i * gsum (nth i xs []) k) /\ var_sched it v2 /\
+                         v_fb v5 = VFn bs2 i /\ v_fba v5 = VFa bs2 i).
     { intros i v5 Hi. rewrite nth_error_map in Hi.
       destruct (nth_error vs4 i) as [v4|] eqn:E4; [|discriminate]. cbn in Hi. inversion Hi; subst v5. clear Hi.
       assert (Li : (i < length vs2)%nat).
@@ -1250,9 +1368,22 @@ Section Real.
       destruct (H4 i _ E3) as (v4' & E4' & Rel). rewrite E4 in E4'. inversion E4'; subst v4'. clear E4'.
       exists v2. split; [reflexivity|].
       destruct (refs_update_pure it (length vs) xs bs1 i) as [Q1 Q2]. fold bs2 in Q1, Q2.
-      assert (Hcs : v_active v2 = true -> v_cvcs v2 = nth i xs []).
-      { rewrite C1 in E2. destruct (nth_error vs1 i) as [v1|]; [|discriminate]. cbn in E2. inversion E2; subst v2.
-        intros A. apply (calc_one_active it v1 (nth i xs []) A). }
+      assert (Hcs : (v_active v2 = true -> v_cvcs v2 = nth i xs []) /\ var_sched it v2).
+      { rewrite C1 in E2. destruct (nth_error vs1 i) as [v1|] eqn:E1; [|discriminate]. cbn in E2. inversion E2; subst v2.
+        split; [intros A; apply (calc_one_active it v1 (nth i xs []) A)|].
+        intros Hf Ht.
+        pose proof (VI_calc_one Rops fixed it _ _ v1 (nth i xs []) (refs_nonneg bs1 i) (W2 i v1 E1)) as _.
+        assert (Ht1 : (1 <? v_tsf v1)%Z = true).
+        { unfold calc_one in Ht. cbn zeta in Ht.
+          assert (Tw : v_tsf (fst (wake_var fixed it v1)) = v_tsf v1).
+          { unfold wake_var, var_enable_awake, var_disable_awake, var_ref_active, var_decr_active, set_vawake, set_vact.
+            destruct v1 as [tsf act rc aw ap arc x cs0 fb fba f]. cbn.
+            repeat match goal with |- context [if ?c then _ else _] => destruct c; cbn end; reflexivity. }
+          destruct (v_active (fst (wake_var fixed it v1))); [|congruence].
+          destruct (fst (wake_var fixed it v1)); cbn in *; congruence. }
+        destruct (calc_one_sched Rops fixed it _ _ v1 (nth i xs []) Hf (refs_nonneg bs1 i) (W2 i v1 E1) Ht1) as (S1 & S2 & S3).
+        rewrite S1. split; assumption. }
+      destruct Hcs as [Hcs Hsch].
       assert (G : forall k, vterm k (update_force Rops v4) = VF bs2 i * gsum (nth i xs []) k /\
                             same_deps v2 (update_force Rops v4)).
       { intros k. apply (vterm_final k v2 v4 (nth i xs []) (VF bs2 i) (refs bs1 i) (arefs bs1 i)).
@@ -1263,18 +1394,36 @@ Section Real.
         - intros Z0. apply VF_zero. rewrite Q2. exact Z0.
         - exact Hcs.
         - exact Rel. }
-      split; [apply (G 0%nat) | intros k; apply (G k)]. }
-    split; [reflexivity|]. split; [|split; [|split]].
+      split; [apply (G 0%nat)|]. split; [intros k; apply (G k)|]. split; [exact Hsch|].
+      destruct (H4f i _ E3) as (v4' & E4' & Rfb). rewrite E4 in E4'. inversion E4'; subst v4'. clear E4'.
+      destruct Rel as (_ & _ & _ & Rsum).
+      assert (F1 : v_fb v4 = VFn bs2 i) by (rewrite Rfb; destruct v2; cbn; lra).
+      assert (F2 : v_fba v4 = VFa bs2 i).
+      { pose proof (VF_split bs2 i) as Sp. destruct v2; cbn in *; lra. }
+      unfold update_force. destruct (v_active v4); destruct v4; cbn in *; auto. }
+    split; [reflexivity|]. split; [|split; [|split; [|split; [|split]]]].
     - (* VInv *)
-      intros i v5 Hi. destruct (P i v5 Hi) as (v2 & E2 & SD & _).
+      intros i v5 Hi. destruct (P i v5 Hi) as (v2 & E2 & SD & _ & _).
       destruct (refs_update_pure it (length vs) xs bs1 i) as [Q1 Q2]. fold bs2 in Q1, Q2.
       unfold VInv in *. rewrite Q1, Q2. eapply VI_same_deps; [exact SD | apply C3; exact E2].
     - rewrite map_length. lia.
     - apply total_energy_closed.
     - intros k. rewrite coord_force_closed. unfold CF.
       replace (length vs) with (length (map (update_force Rops) vs4)) by (rewrite map_length; lia).
-      apply rsum_index. intros i v5 Hi. destruct (P i v5 Hi) as (_ & _ & _ & G). cbn [Nat.add]. apply G.
+      apply rsum_index. intros i v5 Hi. destruct (P i v5 Hi) as (_ & _ & _ & G & _ & _). cbn [Nat.add]. apply G.
+    - apply Forall_forall. intros v5 Hv. apply In_nth_error in Hv. destruct Hv as [i Hi].
+      destruct (P i v5 Hi) as (v2 & _ & (D1 & D2 & D3 & _ & _ & D6) & _ & Hs & _).
+      intros Hf Ht. unfold var_sched in Hs. rewrite D6 in Ht |- *. rewrite D1, D2, D3. apply Hs; assumption.
+    - intros i v5 Hi. destruct (P i v5 Hi) as (_ & _ & _ & _ & _ & F1 & F2). auto.
   Qed.
+
+  Lemma calc_closed it vs (bs : list bias) xs :
+    VInv bs vs ->
+    let r := calc Rops fixed efix it vs bs xs in
+    let bs2 := map (bias_step it (length vs) xs) bs in
+    snd (fst (fst r)) = bs2 /\ VInv bs2 (fst (fst (fst r))) /\ length (fst (fst (fst r))) = length vs /\
+    snd r = EN bs2 /\ forall k, coord_force Rops (fst (fst (fst r))) k = CF bs2 xs (length vs) k.
+  Proof. intros H. destruct (calc_closed_full it vs bs xs H) as (A & B & C & D & E & _ & _). auto. Qed.
 
   (* ---- whole runs ------------------------------------------------------------------------------------ *)
   (* the history of the biases is a function of the biases, the step numbers and the imposed values *)
@@ -1366,6 +1515,84 @@ Section Real.
     rewrite init_nv in H. exact H.
   Qed.
 
+  (* ---- the schedule of a variable with its own factor -------------------------------------------------- *)
+  Definition var_sched_out (o : @out R BS) : Prop :=
+    forall i v, nth_error (o_vars o) i = Some v -> (1 <? v_tsf v)%Z = true ->
+      v_active v = on_schedule (o_it o) (v_tsf v) || (0 <? refs (o_biases o) i)%Z.
+
+  Lemma do_calc_sched (m : @mstate R BS) it xs :
+    fixed = true -> StInv m -> Forall var_sched_out (snd (do_calc Rops fixed efix m it xs)).
+  Proof.
+    intros Hf H. unfold do_calc.
+    pose proof (calc_closed_full it (m_vars m) (m_biases m) xs H) as C. cbn zeta in C.
+    destruct (calc Rops fixed efix it (m_vars m) (m_biases m) xs) as [[[vs bs] e] en].
+    cbn [fst snd] in *. destruct C as (C1 & C2 & C3 & C4 & C5 & C6 & _).
+    constructor; [|constructor]. unfold var_sched_out. cbn [o_vars o_it o_biases].
+    intros i v Hi Ht.
+    assert (Hin : In v vs) by (eapply nth_error_In; exact Hi).
+    rewrite Forall_forall in C6. destruct (C6 v Hin Hf Ht) as [S1 S2].
+    rewrite C1. destruct (C2 i v Hi) as (V1 & _). rewrite S2, V1, S1.
+    pose proof (refs_nonneg (map (bias_step it (length (m_vars m)) xs) (m_biases m)) i) as Hn.
+    destruct (on_schedule it (v_tsf v)); cbn [b2z orb].
+    - apply Z.ltb_lt. lia.
+    - f_equal. lia.
+  Qed.
+
+  Lemma run_var_sched evs : forall (m : @mstate R BS),
+    fixed = true -> StInv m -> Forall var_sched_out (run Rops fixed efix m evs).
+  Proof.
+    induction evs as [|ev r IH]; intros m Hf H; [constructor|].
+    cbn [run]. destruct ev as [xs|xs|id on]; cbn [mstep].
+    - pose proof (do_calc_sched m (if m_first m then m_it m else (m_it m + 1)%Z) xs Hf H) as S.
+      pose proof (do_calc_closed m (if m_first m then m_it m else (m_it m + 1)%Z) xs H) as D. cbn zeta in D.
+      destruct (do_calc Rops fixed efix m (if m_first m then m_it m else (m_it m + 1)%Z) xs) as [m' o].
+      cbn [fst snd] in *. destruct D as (D1 & _). apply Forall_app. split; [exact S | apply IH; assumption].
+    - pose proof (do_calc_sched m (m_it m) xs Hf H) as S.
+      pose proof (do_calc_closed m (m_it m) xs H) as D. cbn zeta in D.
+      destruct (do_calc Rops fixed efix m (m_it m) xs) as [m' o].
+      cbn [fst snd] in *. destruct D as (D1 & _). apply Forall_app. split; [exact S | apply IH; assumption].
+    - destruct (set_active_spec id on (m_biases m) [] (m_vars m) H) as (S1 & S2 & S3).
+      destruct (set_active id on (m_biases m) (m_vars m)) as [[bs vs] e]. cbn [fst snd app] in *. subst bs.
+      cbn [app]. apply IH; [exact Hf | exact S2].
+  Qed.
+
+  Theorem variable_schedule it0 tsfs (cfgs : list (@bias_cfg R BS)) evs :
+    fixed = true -> Forall var_sched_out (run_cfg Rops fixed efix it0 tsfs cfgs evs).
+  Proof. intros Hf. unfold run_cfg. apply run_var_sched; [exact Hf | apply init_StInv]. Qed.
+
+  (* ---- routing: what reaches fb and what reaches fb_actual -------------------------------------------- *)
+  Definition fb_routing_out (o : @out R BS) : Prop :=
+    forall i v, nth_error (o_vars o) i = Some v ->
+      v_fb v = VFn (o_biases o) i /\ v_fba v = VFa (o_biases o) i.
+
+  Lemma run_fb_routing evs : forall (m : @mstate R BS),
+    StInv m -> Forall fb_routing_out (run Rops fixed efix m evs).
+  Proof.
+    induction evs as [|ev r IH]; intros m H; [constructor|].
+    assert (D : forall it xs, Forall fb_routing_out (snd (do_calc Rops fixed efix m it xs)) /\
+                              StInv (fst (do_calc Rops fixed efix m it xs))).
+    { intros it xs. pose proof (do_calc_closed m it xs H) as D. cbn zeta in D. destruct D as (D1 & _).
+      split; [|exact D1]. unfold do_calc.
+      pose proof (calc_closed_full it (m_vars m) (m_biases m) xs H) as C. cbn zeta in C.
+      destruct (calc Rops fixed efix it (m_vars m) (m_biases m) xs) as [[[vs bs] e] en].
+      cbn [fst snd] in *. destruct C as (C1 & _ & _ & _ & _ & _ & C7).
+      constructor; [|constructor]. unfold fb_routing_out. cbn [o_vars o_biases]. rewrite C1. exact C7. }
+    cbn [run]. destruct ev as [xs|xs|id on]; cbn [mstep].
+    - destruct (D (if m_first m then m_it m else (m_it m + 1)%Z) xs) as [D1 D2].
+      destruct (do_calc Rops fixed efix m (if m_first m then m_it m else (m_it m + 1)%Z) xs) as [m' o].
+      cbn [fst snd] in *. apply Forall_app. split; [exact D1 | apply IH; exact D2].
+    - destruct (D (m_it m) xs) as [D1 D2].
+      destruct (do_calc Rops fixed efix m (m_it m) xs) as [m' o].
+      cbn [fst snd] in *. apply Forall_app. split; [exact D1 | apply IH; exact D2].
+    - destruct (set_active_spec id on (m_biases m) [] (m_vars m) H) as (S1 & S2 & S3).
+      destruct (set_active id on (m_biases m) (m_vars m)) as [[bs vs] e]. cbn [fst snd app] in *. subst bs.
+      cbn [app]. apply IH. exact S2.
+  Qed.
+
+  Theorem fb_routing it0 tsfs (cfgs : list (@bias_cfg R BS)) evs :
+    Forall fb_routing_out (run_cfg Rops fixed efix it0 tsfs cfgs evs).
+  Proof. unfold run_cfg. apply run_fb_routing. apply init_StInv. Qed.
+
   (* ---- superposition ------------------------------------------------------------------------------------ *)
   Fixpoint select {A} (m : list bool) (l : list A) : list A :=
     match m, l with
@@ -1400,6 +1627,13 @@ Section Real.
     intros H. unfold CF. rewrite <- rsum_map_add. apply rsum_map_ext. intros i _.
     rewrite (VF_select m bs i H). lra.
   Qed.
+
+  Lemma VFn_select m (bs : list bias) i : length m = length bs ->
+    VFn bs i = VFn (select m bs) i + VFn (select (map negb m) bs) i.
+  Proof. intros H. unfold VFn. apply rsum_select; exact H. Qed.
+  Lemma VFa_select m (bs : list bias) i : length m = length bs ->
+    VFa bs i = VFa (select m bs) i + VFa (select (map negb m) bs) i.
+  Proof. intros H. unfold VFa. apply rsum_select; exact H. Qed.
 
   Definition sel_out (m : list bool) (t : sout) : sout := let '(it, bs, xs) := t in (it, select m bs, xs).
 
@@ -1467,6 +1701,100 @@ Section Real.
     unfold out_add. repeat split; try congruence.
     - rewrite A3, B3, C3. apply EN_select; exact Hlen.
     - intros k. rewrite A4, B4, C4. apply CF_select; exact Hlen.
+  Qed.
+
+  (* ---- n-ary superposition: a run = the sum of the single-bias runs ---------------------------------- *)
+  Definition nth_force (outs : list (@out R BS)) (j k : nat) : R :=
+    match nth_error outs j with Some o => coord_force Rops (o_vars o) k | None => 0 end.
+  Definition nth_energy (outs : list (@out R BS)) (j : nat) : R :=
+    match nth_error outs j with Some o => o_energy o | None => 0 end.
+
+  Lemma Forall3_nth (lAB lA lB : list (@out R BS)) : Forall3 out_add lAB lA lB ->
+    forall j, (forall k, nth_force lAB j k = nth_force lA j k + nth_force lB j k) /\
+              nth_energy lAB j = nth_energy lA j + nth_energy lB j.
+  Proof.
+    induction 1 as [|a b c la lb lc (H1 & H2 & H3 & H4) Hr IH]; intros j.
+    - unfold nth_force, nth_energy. destruct j; cbn; split; intros; lra.
+    - destruct j as [|j]; [|apply IH].
+      unfold nth_force, nth_energy. cbn [nth_error]. split; [exact H4 | exact H3].
+  Qed.
+
+  Lemma select_head {A} (c : A) r :
+    select (true :: repeat false (length r)) (c :: r) = [c] /\
+    select (map negb (true :: repeat false (length r))) (c :: r) = r.
+  Proof.
+    cbn [select map negb]. split.
+    - f_equal. induction r as [|y r IH]; cbn [length repeat select]; [reflexivity | exact IH].
+    - induction r as [|y r IH]; cbn [length repeat select map negb]; [reflexivity | rewrite IH; reflexivity].
+  Qed.
+
+  Lemma run_nobias_zero it0 tsfs evs j :
+    (forall k, nth_force (run_cfg Rops fixed efix it0 tsfs [] evs) j k = 0) /\
+    nth_energy (run_cfg Rops fixed efix it0 tsfs [] evs) j = 0.
+  Proof.
+    pose proof (run_cfg_closed it0 tsfs [] evs) as H.
+    pose proof (btrace_lengths (length tsfs) evs it0 true (map (init_bias Rops) (@nil (@bias_cfg R BS)))) as HL.
+    revert j HL. induction H as [|o t lo lt Ho Hr IH]; intros j HL.
+    - unfold nth_force, nth_energy. destruct j; cbn; auto.
+    - inversion HL as [|? ? L1 L2]; subst. destruct j as [|j]; [|apply IH; exact L2].
+      unfold nth_force, nth_energy. cbn [nth_error].
+      destruct t as [[it bs] xs]. cbn [fst snd length map] in L1. destruct bs; [|discriminate].
+      destruct Ho as (_ & _ & O3 & O4). split.
+      + intros k. rewrite O4. unfold CF. apply rsum_map_zero. intros i _. unfold VF. cbn [map rsum]. lra.
+      + rewrite O3. reflexivity.
+  Qed.
+
+  Theorem superposition_all it0 tsfs (cfgs : list (@bias_cfg R BS)) evs j :
+    (forall k, nth_force (run_cfg Rops fixed efix it0 tsfs cfgs evs) j k
+               = rsum (map (fun c => nth_force (run_cfg Rops fixed efix it0 tsfs [c] evs) j k) cfgs)) /\
+    nth_energy (run_cfg Rops fixed efix it0 tsfs cfgs evs) j
+    = rsum (map (fun c => nth_energy (run_cfg Rops fixed efix it0 tsfs [c] evs) j) cfgs).
+  Proof.
+    induction cfgs as [|c r [IH1 IH2]].
+    - destruct (run_nobias_zero it0 tsfs evs j) as [Z1 Z2]. cbn [map rsum]. auto.
+    - destruct (select_head c r) as [S1 S2].
+      pose proof (superposition it0 tsfs (c :: r) (true :: repeat false (length r)) evs) as H.
+      rewrite S1, S2 in H.
+      specialize (H ltac:(cbn [length]; rewrite repeat_length; reflexivity)).
+      destruct (Forall3_nth _ _ _ H j) as [F1 F2]. cbn [map rsum]. split.
+      + intros k. rewrite F1, IH1. reflexivity.
+      + rewrite F2, IH2. reflexivity.
+  Qed.
+
+  (* forces delivered over a window of N calls starting at call j *)
+  Definition window_force (outs : list (@out R BS)) (j N k : nat) : R :=
+    rsum (map (fun t => nth_force outs (j + t) k) (seq 0 N)).
+
+  Lemma rsum_exchange {A B} (f : A -> B -> R) (la : list A) (lb : list B) :
+    rsum (map (fun a => rsum (map (fun b => f a b) lb)) la) = rsum (map (fun b => rsum (map (fun a => f a b) la)) lb).
+  Proof.
+    induction la as [|a la IH]; cbn [map rsum].
+    - symmetry. apply rsum_map_zero. reflexivity.
+    - rewrite IH. rewrite <- rsum_map_add. reflexivity.
+  Qed.
+
+  (* the impulse delivered by a set of biases over any window is the sum of the impulses of its members *)
+  Theorem impulse_shared it0 tsfs (cfgs : list (@bias_cfg R BS)) evs j N k :
+    window_force (run_cfg Rops fixed efix it0 tsfs cfgs evs) j N k
+    = rsum (map (fun c => window_force (run_cfg Rops fixed efix it0 tsfs [c] evs) j N k) cfgs).
+  Proof.
+    unfold window_force.
+    rewrite (rsum_exchange (fun c t => nth_force (run_cfg Rops fixed efix it0 tsfs [c] evs) (j + t) k) cfgs (seq 0 N)).
+    apply rsum_map_ext. intros t _. apply (superposition_all it0 tsfs cfgs evs (j + t)).
+  Qed.
+
+  Lemma window_force_firstn (outs : list (@out R BS)) j N k : (j + N <= length outs)%nat ->
+    window_force outs j N k = rsum (map (fun o => coord_force Rops (o_vars o) k) (firstn N (skipn j outs))).
+  Proof.
+    unfold window_force. revert j. induction N as [|N IH]; intros j H; [reflexivity|].
+    rewrite <- cons_seq, <- seq_shift. cbn [map rsum]. rewrite map_map.
+    destruct (nth_error outs j) as [o|] eqn:E; [|apply nth_error_None in E; lia].
+    assert (Sk : skipn j outs = o :: skipn (S j) outs).
+    { clear - E. revert outs E. induction j as [|j IHj]; intros outs E; destruct outs as [|y l]; try discriminate.
+      - cbn in E. inversion E; reflexivity.
+      - cbn [nth_error] in E. cbn [skipn]. apply IHj; exact E. }
+    rewrite Sk. cbn [firstn map rsum]. unfold nth_force at 1. rewrite Nat.add_0_r, E. f_equal.
+    rewrite <- (IH (S j)) by lia. apply rsum_map_ext. intros t _. f_equal. lia.
   Qed.
 
   (* ---- a bias that is inactive or does not apply forces contributes nothing ----------------------- *)
